@@ -348,6 +348,60 @@ func reentrant(r *lib.Report, tier string) (int64, int64, []interface{}) {
 			}
 		}
 	}
+	// size sweep: n subscriptions for every n up to 70 (the registration list grows, and may be re-allocated,
+	// at sizes the small histories never reach): publish, remove every third, publish, add three, publish
+	for n := 1; n <= 70; n++ {
+		trans++
+		states++
+		p := fpgo.PublisherNewGenerics[int]()
+		var got []string
+		var handles []*fpgo.Subscription[int]
+		var live []int
+		sub := func(id int) {
+			handles = append(handles, p.Subscribe(fpgo.Subscription[int]{OnNext: func(v int) { got = append(got, fmt.Sprintf("%d<-%d", id, v)) }}))
+			live = append(live, id)
+		}
+		expect := func(v int) string {
+			var w []string
+			for _, id := range live {
+				w = append(w, fmt.Sprintf("%d<-%d", id, v))
+			}
+			return fmt.Sprint(w)
+		}
+		fail := ""
+		step := func(what string, v int) {
+			got = nil
+			p.Publish(v)
+			if fail == "" && fmt.Sprint(got) != expect(v) {
+				fail = fmt.Sprintf("%s: Publish(%d) delivered %v, registered subscriptions in order %v", what, v, got, live)
+			}
+		}
+		if msg := lib.Catch(func() {
+			for id := 0; id < n; id++ {
+				sub(id)
+			}
+			step(fmt.Sprintf("%d subscriptions", n), 1)
+			var keep []int
+			for i, id := range live {
+				if i%3 == 2 {
+					p.Unsubscribe(handles[id])
+				} else {
+					keep = append(keep, id)
+				}
+			}
+			live = keep
+			step(fmt.Sprintf("%d subscriptions, every third removed", n), 2)
+			for k := 0; k < 3; k++ {
+				sub(n + k)
+			}
+			step(fmt.Sprintf("%d subscriptions, every third removed, three added", n), 3)
+		}); msg != "" {
+			fail = msg
+		}
+		if fail != "" {
+			r.Violation("C10|size-sweep|"+clauseOf(fail+" skipped"), fail, map[string]interface{}{"subscriptions": n, "failure": fail})
+		}
+	}
 	// Map chains: a value published on ANY stage of a chain reaches every subscriber of every later stage
 	// exactly once, transformed by exactly the functions between the two stages, and no earlier stage
 	for hops := 1; hops <= 3; hops++ {
